@@ -178,6 +178,20 @@ def run_case(case):
         except Exception as e:
             # known-finding probe: a view that MyGrad still attaches to a base whose memory it no longer shares (see classify)
             stale = v.base is not None and v.creator is not None and nbw >= 2 and not np.shares_memory(v.data, v.base.data)
+            if not stale and v.base is not None and v.creator is not None and nbw >= 2:
+                # ... or whose recorded view operation can no longer be replayed on its recorded parent at all (the parent's shape
+                # was assigned in a later epoch without the dangling view being re-created)
+                import mygrad as _mg
+                t_, hops = v, 0
+                while not stale and t_.base is not None and t_.creator is not None and hops < 30:
+                    p_ = t_.creator.variables[0]
+                    try:
+                        with _mg.no_autodiff:
+                            if t_._replay_op(p_).shape != t_.shape:
+                                stale = True
+                    except Exception:
+                        stale = True
+                    t_, hops = p_, hops + 1
             viol.append({"monitor": "M-alias", "mech": "grad-getter-raises:" + type(e).__name__, "stale_family": bool(stale),
                          "msg": f"reading {n}.grad raised {type(e).__name__}: {e}"})
             del tens[n]
